@@ -10,7 +10,7 @@
 (* creation order, store maps <<collection, name>> to [d, e] (payload      *)
 (* token, revision that wrote it); the backend derives entity tag and      *)
 (* modification time injectively from the revision, so "e" stands for      *)
-(* both.  An operation is a record [op, cl, c, n, d, ns, f].               *)
+(* both.  An operation is a record [op, cl, c, n, d, ns, f, flt].               *)
 (***************************************************************************)
 EXTENDS Naturals, Sequences, FiniteSets, TLC
 Range(s) == {s[i] : i \in 1..Len(s)}
@@ -27,9 +27,13 @@ InCol(S, c) == c \in Range(S.cols)
 Res(err, code, objs, cols) == [err |-> err, code |-> code, objs |-> objs, cols |-> cols]
 Fail(code) == Res(TRUE, code, << >>, << >>)
 Empty == [cols |-> <<"c1", "c2">>, store |-> << >>, rev |-> 0]
+\* a backend fault injected into the operation that carries the call (op.flt): an HTTP error of the backend's own choosing, the same
+\* wrapped by a storage layer, or a plain error; the call must fail with that status (500 for the plain error) and nothing changes
+FaultCode(f) == CASE f = "h403" -> 403 [] f = "h503" -> 503 [] f = "w507" -> 507 [] OTHER -> 500
 \* Step(S, op) = [res, next]: what the call must yield and the state afterwards
 Step(S, op) ==
-  CASE op.op = "put" ->
+  CASE op.flt # "" -> [res |-> Fail(FaultCode(op.flt)), next |-> S]
+    [] op.op = "put" ->
          IF ~InCol(S, op.c) THEN [res |-> Fail(409), next |-> S]
          ELSE LET r == S.rev + 1
                   k == <<op.c, op.n>> IN
